@@ -31,3 +31,5 @@ def run(ck):
     pipeline.overflow_dispatch(ck, "C02.R6", "C03.R2", roles)
     fresh.constructor_state(ck, "C20.R2")            # "under the configured modes": the modes are the object's own, applied to its final configuration
     strings.decimal_arm(ck, "C01.R8")
+    carriers.wrap_rule(ck, "C03.R1", "C03.R3")              # the wrap clause for every carrier
+    fresh.no_hidden_state(ck, "C20.R8")                  # results depend on the documented state only (no caches / memos)
